@@ -832,17 +832,21 @@ impl<'r> Gen<'r> {
 
     /// a statement used as the body of then/do/else/case-arm: either a begin..end block or a
     /// single simple/structured statement. `anchors`: candidates for the controlling line.
-    fn body(&mut self, anchors: Anchors) {
+    /// returns true if the body is a begin..end block (only then may an `else` follow without
+    /// the dangling-else ambiguity)
+    fn body(&mut self, anchors: Anchors) -> bool {
         self.budget -= 1;
         if self.rng.chance(3, 5) {
             let n = if self.budget <= 0 { self.rng.below(2) } else { self.rng.range(0, 3) };
             self.begin_end_block(BlockKind::CtrlBegin, anchors, n);
+            true
         } else {
             // single statement body, one level deeper in canonical layout
             self.depth += 1;
             let s = self.statement_inner(false, anchors);
             self.mark_line_start(s);
             self.depth -= 1;
+            false
         }
     }
 
@@ -947,10 +951,11 @@ impl<'r> Gen<'r> {
                 let _then = self.kw("then");
                 self.mark_line_end();
                 let anch = with_anchor(me);
-                self.body(anch);
-                // else chain
+                let mut closed = self.body(anch);
+                // else chain (only after a begin..end body: `if a then if b then x else y` would bind
+                // the else to the inner if)
                 let mut chain = 0;
-                while self.rng.chance(2, 5) && chain < 3 {
+                while closed && self.rng.chance(2, 5) && chain < 3 {
                     chain += 1;
                     let el = self.kw("else");
                     self.mark_line_start(el);
@@ -961,7 +966,7 @@ impl<'r> Gen<'r> {
                         own_header_anon |= self.header(|g| g.expr(0));
                         self.kw("then");
                         self.mark_line_end();
-                        self.body(vec![inner_if, el]);
+                        closed = self.body(vec![inner_if, el]);
                     } else {
                         self.mark_line_end();
                         self.body(vec![el]);
